@@ -115,6 +115,29 @@ def gen_record(rng, opts, url):
             'try_count': rng.choice([0, tries - 1, tries, tries + 1])}
 
 
+def directed_pairs(rng, opts, n):
+    '''Boundary-directed (URL, record) pairs: sibling directory sharing a name prefix with the root directory, host
+    names that extend or embed an allowed one, levels / inline levels / try counts on and around their limits.'''
+    hosts = ['a.test', 'a.test', 'b.test', 'sub.a.test', 'nota.test', 'a.test.evil.test', 'c.test']
+    paths = ['/dir/page.html', '/dirx/page.html', '/dir-old/x.html', '/dir.bak/', '/dir', '/dir/', '/', '/dir/sub/x.png',
+             '/di/x.html', '/other/x.html', '/dir/private/s.html', '/dir/privatex', '/img/a.png', '/imgs/a.png', '/x.zip', '/x.zipx',
+             '/cgi-bin/q', '/cgi/q', '/data1.bin', '/tmpfile', '/logout', '/dir/page.htmlx']
+    level_limit = opts.get('level') or 3
+    prl = opts.get('page_requisites_level') or 3
+    tries = opts.get('tries') or 3
+    out = []
+    for _ in range(n):
+        scheme = rng.choice(['http', 'http', 'https', 'ftp'])
+        url = '{}://{}{}{}'.format(scheme, rng.choice(hosts), rng.choice(['', '', ':8080']), rng.choice(paths))
+        rec = {'level': rng.choice([0, 1, level_limit, level_limit + 1, level_limit + 2, level_limit + 3]),
+               'inline_level': rng.choice([None, None, 1, prl, prl + 1]),
+               'root_url': rng.choice(['http://a.test/dir/', 'http://a.test/dir/index.html', 'https://a.test/dir/', 'http://a.test/dir']),
+               'parent_url': rng.choice(['http://a.test/dir/page.html', 'http://c.test/far.html', 'ftp://a.test/pub/']),
+               'try_count': rng.choice([0, tries - 1, tries])}
+        out.append((url, rec))
+    return out
+
+
 def option_sets(rng, n_random):
     names = [n for n, _ in OPTION_POOL]
     pool = dict(OPTION_POOL)
@@ -162,7 +185,7 @@ def worker(job):
         opts = opts_from_args(args)
         start_hostnames = set(refscope.split(u)['hostname'] for u in start_urls)
         part.count('option_sets')
-        pairs = fixed or [(None, None)] * job['per_set']
+        pairs = fixed or ([(None, None)] * job['per_set'] + directed_pairs(rng, opts, job['per_set'] * 6))
         for url, rec in pairs:
             if url is None:
                 url = gen_url(rng, opts)
